@@ -72,6 +72,9 @@ func (fc *FuncCtx) oblige(fr *Frame, st *State, kind, label string, goal string,
 		o.Structural = true
 		o.StructOK = true
 		o.Note = "trivial"
+	} else if fr.top && strings.HasPrefix(kind, "safety.") && fc.depth == 0 {
+		// parameters of the function under contract, for a generated replay of a reachable panic
+		fc.modelTerms(o, fr, nil, nil)
 	}
 	fc.u.Obls = append(fc.u.Obls, o)
 	return o
